@@ -180,6 +180,28 @@ def run(rep, tier, seed):
                 oracle_grid(sname, sl, tspan, None, False, fails, case)
             except Exception as ex:  # noqa
                 fails.append((case, f"{sname} raised {type(ex).__name__}: {str(ex)[:80]}"))
+    # ---- "the states at the requested nodes are as accurate as step values": harmonic oscillator with exact solution;
+    #      the error at 401 requested nodes against the error at the step ends of the matching two-node run
+    from scipy.sparse import csc_array as _csc
+    from Solverz.num_api.num_eqn import nDAE as _nDAE
+    osc = _nDAE(_csc(np.eye(2)), lambda t, y, p: np.array([y[1], -y[0]]), lambda t, y, p: _csc(np.array([[0.0, 1.0], [-1.0, 0.0]])), {})
+    exact = lambda T: np.column_stack([np.cos(T), -np.sin(T)])
+    hist["dense_accuracy_ratio"] = {}
+    for scheme in ("rodas4", "rodasp", "rodas5p"):
+        for rt in ((1e-7,) if tier == "quick" else (1e-3, 1e-5, 1e-7)):
+            case = dict(problem="harmonic oscillator", scheme=scheme, rtol=rt, nodes=401)
+            try:
+                s2 = RC.quiet(Rodas, osc, [0.0, 10.0], np.array([1.0, 0.0]), Opt(rtol=rt, atol=rt * 1e-2, scheme=scheme))
+                sd = RC.quiet(Rodas, osc, np.linspace(0.0, 10.0, 401), np.array([1.0, 0.0]), Opt(rtol=rt, atol=rt * 1e-2, scheme=scheme))
+                e_step = float(np.max(np.abs(np.asarray(s2.Y) - exact(np.asarray(s2.T).ravel()))))
+                e_node = float(np.max(np.abs(np.asarray(sd.Y) - exact(np.asarray(sd.T).ravel()))))
+                ratio = e_node / max(e_step, 1e-14)
+                hist["dense_accuracy_ratio"][f"{scheme}/{rt}"] = round(ratio, 2)
+                if ratio > 25.0:
+                    fails.append((case, f"Rodas/{scheme}: error at the requested nodes {e_node:.3e} is {ratio:.0f} times the error at the step ends "
+                                        f"{e_step:.3e} (rtol {rt})"))
+            except Exception as ex:  # noqa
+                fails.append((case, f"Rodas/{scheme} raised {type(ex).__name__}: {str(ex)[:80]}"))
     O15._verif_trace.clear()
     try:
         got = run_driver(lines)
